@@ -1,0 +1,146 @@
+//! Verification hooks: thin `pub` wrappers around crate-private items so that an external
+//! harness crate can drive them. Compiled only with `--cfg zcash_librustzcash_verif`; adds no
+//! behaviour.
+
+use alloc::collections::BTreeMap;
+use alloc::string::String;
+use alloc::vec::Vec;
+
+use crate::{
+    common::Global,
+    roles::combiner::{merge_map, merge_optional},
+    transparent,
+};
+
+/// Builds a `Global` from its fields.
+#[allow(clippy::too_many_arguments)]
+pub fn global(
+    tx_version: u32,
+    version_group_id: u32,
+    consensus_branch_id: u32,
+    fallback_lock_time: Option<u32>,
+    expiry_height: u32,
+    coin_type: u32,
+    tx_modifiable: u8,
+    proprietary: BTreeMap<String, Vec<u8>>,
+) -> Global {
+    Global {
+        tx_version,
+        version_group_id,
+        consensus_branch_id,
+        fallback_lock_time,
+        expiry_height,
+        coin_type,
+        tx_modifiable,
+        proprietary,
+    }
+}
+
+/// The scalar fields of a `Global`, in declaration order.
+pub fn global_parts(g: &Global) -> (u32, u32, u32, Option<u32>, u32, u32, u8) {
+    (
+        g.tx_version,
+        g.version_group_id,
+        g.consensus_branch_id,
+        g.fallback_lock_time,
+        g.expiry_height,
+        g.coin_type,
+        g.tx_modifiable,
+    )
+}
+
+/// `Global::merge`.
+pub fn merge_global(a: Global, b: Global) -> Option<Global> {
+    a.merge(b)
+}
+
+/// `merge_optional` instantiated at `u32`.
+pub fn merge_optional_u32(lhs: &mut Option<u32>, rhs: Option<u32>) -> bool {
+    merge_optional(lhs, rhs)
+}
+
+/// `merge_map` instantiated at `BTreeMap<u8, u8>`.
+pub fn merge_map_u8(lhs: &mut BTreeMap<u8, u8>, rhs: BTreeMap<u8, u8>) -> bool {
+    merge_map(lhs, rhs)
+}
+
+/// A transparent input with empty maps.
+#[allow(clippy::too_many_arguments)]
+pub fn transparent_input(
+    prevout_txid: [u8; 32],
+    prevout_index: u32,
+    sequence: Option<u32>,
+    required_time_lock_time: Option<u32>,
+    required_height_lock_time: Option<u32>,
+    script_sig: Option<Vec<u8>>,
+    value: u64,
+    script_pubkey: Vec<u8>,
+    redeem_script: Option<Vec<u8>>,
+    sighash_type: u8,
+) -> transparent::Input {
+    transparent::Input {
+        prevout_txid,
+        prevout_index,
+        sequence,
+        required_time_lock_time,
+        required_height_lock_time,
+        script_sig,
+        value,
+        script_pubkey,
+        redeem_script,
+        partial_signatures: BTreeMap::new(),
+        sighash_type,
+        bip32_derivation: BTreeMap::new(),
+        ripemd160_preimages: BTreeMap::new(),
+        sha256_preimages: BTreeMap::new(),
+        hash160_preimages: BTreeMap::new(),
+        hash256_preimages: BTreeMap::new(),
+        proprietary: BTreeMap::new(),
+    }
+}
+
+/// The mergeable optional fields of a transparent input.
+#[allow(clippy::type_complexity)]
+pub fn transparent_input_optionals(
+    i: &transparent::Input,
+) -> (Option<u32>, Option<u32>, Option<u32>, &Option<Vec<u8>>, &Option<Vec<u8>>) {
+    (
+        i.sequence,
+        i.required_time_lock_time,
+        i.required_height_lock_time,
+        &i.script_sig,
+        &i.redeem_script,
+    )
+}
+
+/// A transparent output with empty maps.
+pub fn transparent_output(
+    value: u64,
+    script_pubkey: Vec<u8>,
+    redeem_script: Option<Vec<u8>>,
+    user_address: Option<String>,
+) -> transparent::Output {
+    transparent::Output {
+        value,
+        script_pubkey,
+        redeem_script,
+        bip32_derivation: BTreeMap::new(),
+        user_address,
+        proprietary: BTreeMap::new(),
+    }
+}
+
+/// A transparent bundle.
+pub fn transparent_bundle(inputs: Vec<transparent::Input>, outputs: Vec<transparent::Output>) -> transparent::Bundle {
+    transparent::Bundle { inputs, outputs }
+}
+
+/// `transparent::Bundle::merge`.
+pub fn merge_transparent(
+    a: transparent::Bundle,
+    b: transparent::Bundle,
+    a_global: &Global,
+    b_global: &Global,
+) -> Option<transparent::Bundle> {
+    a.merge(b, a_global, b_global)
+}
